@@ -80,9 +80,9 @@ theorem overlappingFieldsStep_ok (s : SV) (d : QueryDoc) (st : OSt) (e : Event) 
         | some (st', cs) => StepOut.ok st' (cs.map Conflict.toErr)) = .ok st' errs ∧ PSym st'.pairs ∧
         st'.steps ≤ st.steps + overlapStepBound d sels := by
     intro parent sels
-    obtain ⟨⟨st', cs⟩, h, a, k⟩ := overlapRun_ok s d e.links parent sels st hP
+    obtain ⟨⟨st', cs⟩, h, a, _, k⟩ := overlapRun_ok s d e.links parent sels st hP
     rw [h]
-    exact ⟨st', _, rfl, a.1, k⟩
+    exact ⟨st', _, rfl, a, k⟩
   unfold overlappingFieldsStep eventBound eventSels
   simp only
   cases hp : e.p with
